@@ -27,4 +27,37 @@ let () =
       Printf.sprintf "%s %s %s %s" (zstr r) (if ok then "ok" else "OOB") (show_st s) (show_bytes (load_list am (zs dest) capn))
     | _ -> "badargs")
 
+let () =
+  (* fastapi <src> <srcSize> <originalSize> <placement p|x> <dict> <fill>: LZ4_decompress_fast(_usingDict) model
+     -> ret ok|OOB len md5 of [0,originalSize) *)
+  reg "fastapi" (function [src; srcsize; osize; pl; dict; fill] ->
+      let src = bytes_of_hex src and dict = bytes_of_hex dict and fill = bytes_of_hex fill in
+      let srcm = mem_of_list (z 0) src in
+      let isp = (pl = "p") in
+      let m0 = if isp then store_list (mem_of_list (z 0) fill) (Big_int_Z.minus_big_int (len dict)) dict
+               else mem_of_list (z 0) fill in
+      let dictm = if isp then mem_of_list (z 0) [] else mem_of_list (z 0) dict in
+      let ((r, m), ok) = decompress_fast_usingDict srcm (zs srcsize) (zs osize) (if isp then PPrefix else PExt) dictm (len dict) m0 in
+      Printf.sprintf "%s %s %s" (zstr r) (if ok then "ok" else "OOB") (show_bytes (load_list m (z 0) (len fill)))
+    | _ -> "badargs");
+  (* fcont <src> <srcSize> <dest> <originalSize>: LZ4_decompress_fast_continue model on the session arena/state *)
+  reg "fcont" (function [src; srcsize; dest; osize] ->
+      let src = bytes_of_hex src in
+      let srcm = mem_of_list (z 0) src in
+      let (((r, am), s), ok) = decompress_fast_continue !arena !st srcm (zs srcsize) (zs dest) (zs osize) in
+      arena := am; st := s;
+      Printf.sprintf "%s %s %s %s" (zstr r) (if ok then "ok" else "OOB") (show_st s) (show_bytes (load_list am (zs dest) (zs osize)))
+    | _ -> "badargs")
+
+let () =
+  (* semout <hist> <blk> <r>: the specified output of Proofs/DecConversePartialTop.v (sequence semantics of an
+     arbitrary input, truncated where the input ends) -> total length, md5 of its first r bytes *)
+  reg "semout" (function [h; b; r] ->
+      let out = specified_output (bytes_of_hex h) (bytes_of_hex b) in
+      let s = string_of_bytes out in
+      let n = String.length s in
+      let k = min n (max 0 (int_of_string r)) in
+      Printf.sprintf "%d %s" n (Digest.to_hex (Digest.string (String.sub s 0 k)))
+    | _ -> "badargs")
+
 let () = Common.main ()
